@@ -1,7 +1,7 @@
 (* C13 (sequential half): every pipeline satisfies [spec]; the theorems about all runs. *)
 From Coq Require Import ZArith List Bool Arith Lia.
 From V Require Import Calc.StreamDefs Calc.StreamSpec Calc.StreamInv Calc.StreamInvSrc Calc.StreamInvTr
-  Calc.StreamInvFi Calc.StreamInvTE Calc.StreamInvSI Calc.StreamInvTU Calc.StreamDen Calc.StreamTop.
+  Calc.StreamInvAd Calc.StreamInvFi Calc.StreamInvTE Calc.StreamInvSI Calc.StreamInvTU Calc.StreamDen Calc.StreamTop.
 Import ListNotations.
 Import SCalc.
 Local Open Scope Z_scope.
@@ -18,12 +18,17 @@ Fixpoint Ginv (e : stexpr) : sst -> Prop :=
   | STakeUntil s _ _ => G_tu (Ginv s)
   | SStopImm s => G_si (Ginv s)
   | STypeErase s => G_te (Ginv s)
+  | SNextAdapt a s => G_ad a (Ginv s)
+  | SCleanupAdapt _ s => G_ad AId (Ginv s)
+  | SAdapt1 a s => G_ad a (Ginv s)
+  | SAdapt2 an _ s => G_ad an (Ginv s)
   end.
 
 Fixpoint msf (e : stexpr) : sst -> nat -> monst :=
   match e with
   | SSrc id _ => ms_src id
   | STransform _ s | SFilter _ s | SStopImm s | STypeErase s => ms_un (msf s)
+  | SNextAdapt _ s | SCleanupAdapt _ s | SAdapt1 _ s | SAdapt2 _ _ s => ms_un (msf s)
   | STakeUntil s tid _ => ms_tu tid (msf s)
   | _ => ms_none
   end.
@@ -40,6 +45,43 @@ Proof.
   - unfold wf_ids in W. simpl in W. inversion W; subst. apply tu_spec; auto.
   - apply si_spec. apply IHe. exact W.
   - apply te_spec. apply IHe. exact W.
+  - apply ad_spec. apply IHe. exact W.
+  - apply ad_spec. apply IHe. exact W.
+  - apply ad_spec. apply IHe. exact W.
+  - apply ad_spec. apply IHe. exact W.
+Qed.
+
+(* the values an adapted history carries *)
+Lemma ad_vc : forall a hC, vc (map (ad_o a) hC) = adapt_elems a (vc hC).
+Proof.
+  intros a hC. destruct a; try (simpl; rewrite (map_ext _ (fun o => o)), map_id; [reflexivity|reflexivity]).
+  apply tr_vc.
+Qed.
+Lemma adapt_elems_prefix : forall a l D, prefix l D -> prefix (adapt_elems a l) (adapt_elems a D).
+Proof. intros a l D H. destruct a; simpl; auto. apply map_until_prefix; auto. Qed.
+Lemma ad_has_term_id : forall a hC, (forall f, a <> AThen f) -> map (ad_o a) hC = hC.
+Proof. intros a hC H. rewrite (map_ext _ (fun o => o)), map_id; auto. intros o. apply ad_o_id; auto. Qed.
+
+Lemma G_ad_prefix : forall a G D st, G_ad a G st ->
+  (forall si, G si -> prefix (vc (hist_of si)) (D si)) ->
+  exists si, body_of st = BUn KAd si /\ prefix (vc (hist_of st)) (adapt_elems a (D si)).
+Proof.
+  intros a G D st H HD. destruct (G_ad_hist _ _ _ H) as (si & Eb & Eh & HG). exists si. split; auto.
+  rewrite Eh, ad_vc. apply adapt_elems_prefix. auto.
+Qed.
+
+Lemma G_ad_exact : forall a G D st, G_ad a G st -> has_term (hist_of st) = true ->
+  (forall si, G si -> prefix (vc (hist_of si)) (D si)) ->
+  (forall si, G si -> has_term (hist_of si) = true -> vc (hist_of si) = D si) ->
+  exists si, body_of st = BUn KAd si /\ vc (hist_of st) = adapt_elems a (D si).
+Proof.
+  intros a G D st H Ht HP HE. destruct (G_ad_hist _ _ _ H) as (si & Eb & Eh & HG). exists si. split; auto.
+  rewrite Eh, ad_vc. rewrite Eh in Ht.
+  destruct (has_term (hist_of si)) eqn:Et.
+  - rewrite (HE si); auto.
+  - destruct a; simpl;
+      try (rewrite ad_has_term_id in Ht by (intros f0 Ef; discriminate Ef); congruence).
+    apply tr_exact; auto.
 Qed.
 
 (* ---- histories and the denotation ------------------------------------------------------------------------ *)
@@ -68,6 +110,14 @@ Proof.
     destruct Hr as [E|[_ Hp]]; [rewrite E; apply prefix_refl|auto].
   - destruct (G_te_hist _ _ H) as (t & si & Eb & Eh & HG). destruct st as [h pm bd]. simpl in *. subst bd h.
     simpl. apply IHe; auto.
+  - destruct (G_ad_prefix a _ (fun si => sdenote e (fun _ => bot_hist si)) st H IHe) as (si & Eb & Hp).
+    destruct st as [h pm bd]. simpl in *. subst bd. exact Hp.
+  - destruct (G_ad_prefix AId _ (fun si => sdenote e (fun _ => bot_hist si)) st H IHe) as (si & Eb & Hp).
+    destruct st as [h pm bd]. simpl in *. subst bd. exact Hp.
+  - destruct (G_ad_prefix a _ (fun si => sdenote e (fun _ => bot_hist si)) st H IHe) as (si & Eb & Hp).
+    destruct st as [h pm bd]. simpl in *. subst bd. exact Hp.
+  - destruct (G_ad_prefix an _ (fun si => sdenote e (fun _ => bot_hist si)) st H IHe) as (si & Eb & Hp).
+    destruct st as [h pm bd]. simpl in *. subst bd. exact Hp.
 Qed.
 
 (* without stop_immediately / never_stream nothing is ever dropped: once the stream has ended the
@@ -97,6 +147,14 @@ Proof.
     simpl. apply IHe; auto.
   - destruct (G_te_hist _ _ H) as (t & si & Eb & Eh & HG). destruct st as [h pm bd]. simpl in *. subst bd h.
     simpl. apply IHe; auto.
+  - destruct (G_ad_exact a _ (fun si => sdenote e (fun _ => bot_hist si)) st H Ht (Ginv_prefix e) (fun si => IHe si Hl)) as (si & Eb & Hp).
+    destruct st as [h pm bd]. simpl in *. subst bd. exact Hp.
+  - destruct (G_ad_exact AId _ (fun si => sdenote e (fun _ => bot_hist si)) st H Ht (Ginv_prefix e) (fun si => IHe si Hl)) as (si & Eb & Hp).
+    destruct st as [h pm bd]. simpl in *. subst bd. exact Hp.
+  - destruct (G_ad_exact a _ (fun si => sdenote e (fun _ => bot_hist si)) st H Ht (Ginv_prefix e) (fun si => IHe si Hl)) as (si & Eb & Hp).
+    destruct st as [h pm bd]. simpl in *. subst bd. exact Hp.
+  - destruct (G_ad_exact an _ (fun si => sdenote e (fun _ => bot_hist si)) st H Ht (Ginv_prefix e) (fun si => IHe si Hl)) as (si & Eb & Hp).
+    destruct st as [h pm bd]. simpl in *. subst bd. exact Hp.
 Qed.
 
 (* the bottom source's history is what the monitor collected from the trace *)
@@ -104,6 +162,7 @@ Fixpoint bottom_id (e : stexpr) : option nat :=
   match e with
   | SSrc id _ => Some id
   | STransform _ s | SFilter _ s | SStopImm s | STypeErase s | STakeUntil s _ _ => bottom_id s
+  | SNextAdapt _ s | SCleanupAdapt _ s | SAdapt1 _ s | SAdapt2 _ _ s => bottom_id s
   | _ => None
   end.
 
@@ -129,6 +188,10 @@ Proof.
     simpl. apply IHe; auto.
   - destruct (G_te_hist _ _ H) as (t & si & Eb & Eh & HG). destruct st as [h pm bd]. simpl in *. subst bd.
     simpl. apply IHe; auto.
+  - destruct (G_ad_hist _ _ _ H) as (si & Eb & _ & HG). destruct st as [h pm bd]. simpl in *. subst bd. apply IHe; auto.
+  - destruct (G_ad_hist _ _ _ H) as (si & Eb & _ & HG). destruct st as [h pm bd]. simpl in *. subst bd. apply IHe; auto.
+  - destruct (G_ad_hist _ _ _ H) as (si & Eb & _ & HG). destruct st as [h pm bd]. simpl in *. subst bd. apply IHe; auto.
+  - destruct (G_ad_hist _ _ _ H) as (si & Eb & _ & HG). destruct st as [h pm bd]. simpl in *. subst bd. apply IHe; auto.
 Qed.
 
 Lemma sdenote_ext : forall e H H', (forall id, bottom_id e = Some id -> H id = H' id) -> sdenote e H = sdenote e H'.
